@@ -25,6 +25,8 @@ func main() {
 		err = cmdExp(os.Args[2:])
 	case "hlc":
 		err = cmdHLC(os.Args[2:])
+	case "shut":
+		err = cmdShut(os.Args[2:])
 	case "stress":
 		err = cmdStress(os.Args[2:])
 	case "crashchild":
